@@ -253,3 +253,48 @@ Proof.
   unfold fa_loop, fa_ret in X; cbn [fn_body cf_find_achar] in X. rewrite X, Y.
   destruct (row_index c); reflexivity.
 Qed.
+
+(* ------------------------------------------------------------------ can_join, uc_cshape *)
+Lemma load_achars m i : globals_at m -> (i < length achars)%nat ->
+  load m G_achars (5 * Z.of_nat i) = Ok (VInt (a_c (nth i achars arow0))) /\
+  load m G_achars (5 * Z.of_nat i + 2) = Ok (VInt (a_i (nth i achars arow0))) /\
+  load m G_achars (5 * Z.of_nat i + 3) = Ok (VInt (a_m (nth i achars arow0))) /\
+  load m G_achars (5 * Z.of_nat i + 4) = Ok (VInt (a_f (nth i achars arow0))) /\
+  arow_ok (nth i achars arow0).
+Proof.
+  intros Hg Hi.
+  destruct (load_arow m G_achars achars (Z.of_nat i) (achars_at m Hg)) as [A [_ [C [D E]]]].
+  { split; [apply Nat2Z.is_nonneg|apply Nat2Z.inj_lt; exact Hi]. }
+  unfold nthz in *. rewrite Nat2Z.id in *. repeat split; try assumption.
+  all: pose proof (nthz_ok achars (Z.of_nat i) achars_ok) as K; unfold nthz in K; rewrite Nat2Z.id in K; apply K.
+Qed.
+
+Ltac fld_off := change (1 * 2) with 2; change (1 * 3) with 3; change (1 * 4) with 4.
+
+(* can_join(c1, c2), for all ints: the model's answer; the memory is not written *)
+Theorem tr_can_join m c1 c2 d fuel : globals_at m -> int_ok c1 -> int_ok c2 -> (length achars < fuel)%nat ->
+  callf cprog fuel (S (S d)) F_can_join [VInt c1; VInt c2] m = Ok (VInt (b2z (can_join c1 c2)), m).
+Proof.
+  intros Hg H1 H2 Hf. enter F_can_join cf_can_join. xstep.
+  rewrite (tr_find_achar m c1 d fuel Hg H1 Hf). xstep.
+  rewrite (tr_find_achar m c2 d fuel Hg H2 Hf). xstep.
+  unfold can_join. rewrite <- !row_index_model.
+  destruct (row_index c1) as [i1|] eqn:E1; cbn [row_ptr option_map]; xstep; [|reflexivity].
+  destruct (row_index c2) as [i2|] eqn:E2; cbn [row_ptr option_map]; xstep; [|reflexivity].
+  destruct (row_index_lt _ _ E1) as [L1 _]. destruct (row_index_lt _ _ E2) as [L2 _].
+  destruct (load_achars m i1 Hg L1) as [_ [LI1 [LM1 [_ [_ [_ [OI1 [OM1 _]]]]]]]].
+  destruct (load_achars m i2 Hg L2) as [_ [_ [LM2 [LF2 [_ [_ [_ [OM2 OF2]]]]]]]].
+  unfold nz. fld_off.
+  rewrite LI1. xstep. rewrite (wrap_U32_fld _ OI1).
+  destruct (a_i (nth i1 achars arow0) =? 0); cbn [negb orb andb]; xstep.
+  - rewrite LM1. xstep. rewrite (wrap_U32_fld _ OM1).
+    destruct (a_m (nth i1 achars arow0) =? 0); cbn [negb orb andb]; xstep; [reflexivity|].
+    rewrite LF2. xstep. rewrite (wrap_U32_fld _ OF2).
+    destruct (a_f (nth i2 achars arow0) =? 0); cbn [negb orb andb]; xstep; [|reflexivity].
+    rewrite LM2. xstep. rewrite (wrap_U32_fld _ OM2).
+    destruct (a_m (nth i2 achars arow0) =? 0); reflexivity.
+  - rewrite LF2. xstep. rewrite (wrap_U32_fld _ OF2).
+    destruct (a_f (nth i2 achars arow0) =? 0); cbn [negb orb andb]; xstep; [|reflexivity].
+    rewrite LM2. xstep. rewrite (wrap_U32_fld _ OM2).
+    destruct (a_m (nth i2 achars arow0) =? 0); reflexivity.
+Qed.
